@@ -20,6 +20,7 @@ type prophetState struct {
 	adv        map[int]map[string]float64    // last vector each peer addressed to this node
 	lastEmit   map[string]float64            // previous emission
 	haveEmit   bool
+	lastKey    [2]uint64
 	agedSince  bool                          // an ageing tick ran since the previous emission
 	raised     map[string]bool               // keys an encounter/import may have raised since then
 	pInit, beta, gamma float64
@@ -165,6 +166,15 @@ func (n *nodeSim) prophetEmission(rec *sendRec) {
 	}
 	n.emitted[rec.idStr] = true
 	st := n.prophet()
+	// a metadata bundle that could not be sent at once may reach a peer after a younger one:
+	// emissions are judged in the order in which the node created them
+	ct := rec.bundle.PrimaryBlock.CreationTimestamp
+	key := [2]uint64{uint64(ct.DtnTime()), ct.SequenceNumber()}
+	if st.haveEmit && (key[0] < st.lastKey[0] || (key[0] == st.lastKey[0] && key[1] < st.lastKey[1])) {
+		n.res.Probe("prophet_stale_emission_skipped")
+		return
+	}
+	st.lastKey = key
 	vec := map[string]float64{}
 	for e, v := range cb.Value.(*bpv7.ProphetBlock).GetPredictabilities() {
 		vec[e.String()] = v
